@@ -90,6 +90,8 @@ func flowRender(name string, ops [][2]string) string {
 			b.WriteString("g0()\n")
 		case "break", "continue", "goto":
 			b.WriteString(k + " " + a + "\n")
+		case "fgoto":
+			b.WriteString("goto " + a + "\n")
 		case "label":
 			b.WriteString(a + ":\n")
 		case "fallthrough":
@@ -251,9 +253,17 @@ func (fb *flowBuilder) build(ops [][2]string) (d flowDiag, fail string) {
 	}
 	var stack []string
 	var ncase []int
+	fwd := []map[string]*gogen.Label{{}} // labels created by a forward goto and not placed yet, per function
 	for _, op := range ops {
 		k, a := op[0], op[1]
 		switch k {
+		case "fgoto":
+			l := cb.NewLabel(token.NoPos, token.NoPos, a)
+			if l == nil {
+				return d, "NewLabel returned nil for the fresh label " + a
+			}
+			fwd[len(fwd)-1][a] = l
+			cb.Goto(l)
 		case "ret":
 			cb.Val(0).Return(1)
 		case "panic":
@@ -286,7 +296,10 @@ func (fb *flowBuilder) build(ops [][2]string) (d flowDiag, fail string) {
 				cb.Goto(l)
 			}
 		case "label":
-			if l := cb.NewLabel(token.NoPos, token.NoPos, a); l != nil {
+			if l, ok := fwd[len(fwd)-1][a]; ok {
+				delete(fwd[len(fwd)-1], a)
+				cb.Label(l)
+			} else if l := cb.NewLabel(token.NoPos, token.NoPos, a); l != nil {
 				cb.Label(l)
 			}
 		case "fallthrough":
@@ -320,6 +333,7 @@ func (fb *flowBuilder) build(ops [][2]string) (d flowDiag, fail string) {
 			cb.Val(ref("gf"))
 			cb.NewClosure(nil, res(), false).BodyStart(pkg)
 			stack = append(stack, k)
+			fwd = append(fwd, map[string]*gogen.Label{})
 		case "else":
 			cb.Else()
 		case "case", "default":
@@ -349,6 +363,7 @@ func (fb *flowBuilder) build(ops [][2]string) (d flowDiag, fail string) {
 				ncase = ncase[:len(ncase)-1]
 			}
 			if top == "closure" {
+				fwd = fwd[:len(fwd)-1]
 				cb.Call(1).EndStmt()
 			}
 		}
@@ -492,6 +507,7 @@ func runC10(tier, replay string) {
 		{name: "select-for-break-8", cfg: flowCfg(8, 4, `{"L"}`, `{"select","for"}`, `{"ret"}`, `{"break","label"}`, 2)},
 		{name: "label-goto-closure-7", cfg: flowCfg(7, 4, `{"L","M"}`, `{"for","closure"}`, `{"ret","call"}`, `{"goto","label","continue"}`, 3)},
 		{name: "tswitch-fallthrough-7", cfg: flowCfg(7, 4, `{"L"}`, `{"switch","tswitch"}`, `{"ret","panic"}`, `{"fallthrough","break"}`, 2)},
+		{name: "forward-goto-7", cfg: flowCfg(7, 4, `{"L"}`, `{"for","ifb","switch","closure"}`, `{"ret","call"}`, `{"fgoto","label"}`, 3)},
 	}
 	if tier == "thorough" {
 		confs = []flowConf{
@@ -502,6 +518,8 @@ func runC10(tier, replay string) {
 			{name: "label-goto-closure-9", cfg: flowCfg(9, 5, `{"L","M"}`, `{"for","closure"}`, `{"ret","call"}`, `{"goto","label","continue"}`, 3), heavy: true},
 			{name: "tswitch-fallthrough-9", cfg: flowCfg(9, 5, `{"L"}`, `{"switch","tswitch"}`, `{"ret","panic"}`, `{"fallthrough","break"}`, 2), heavy: true},
 			{name: "range-forcond-labels-8", cfg: flowCfg(8, 5, `{"L","M"}`, `{"range","forcond","for","block"}`, `{"ret"}`, `{"break","continue","label"}`, 2), heavy: true},
+			{name: "forward-goto-8", cfg: flowCfg(8, 4, `{"L"}`, `{"for","ifb","switch","closure"}`, `{"ret","call"}`, `{"fgoto","label"}`, 3), heavy: true}, // 4.5e6 states measured
+			{name: "two-labels-goto-8", cfg: flowCfg(8, 5, `{"L","M"}`, `{"for","ifb","block"}`, `{"ret"}`, `{"fgoto","goto","label"}`, 2), heavy: true},     // 3.9e6 states measured
 		}
 	}
 	var states, transitions, total int64
